@@ -15,13 +15,16 @@ func init() {
 	Register(&PropDef{ID: "C09", Run: c09, MaxSim: 48 * time.Hour, MaxSteps: 3000000})
 }
 
-// intervals for which N/20 is unambiguous (an integer, or below 1)
-var hbChoices = []int{1, 2, 3, 5, 7, 10, 20, 40, 60}
+// C09: intervals for which max(1, N/20) is the same in integer and real arithmetic (N <= 20, 40, 60)
+var hbChoices = []int{1, 2, 3, 4, 5, 6, 7, 8, 9, 10, 11, 12, 13, 15, 16, 17, 19, 20, 40, 60}
 
-func timerSetup(w *World) (sc *Script, s *session.Session, n int, logonAt time.Time) {
+// C08's bounds involve no such division: any interval within the limits
+var hbChoicesAny = []int{1, 2, 3, 4, 5, 6, 7, 8, 9, 10, 11, 12, 13, 14, 15, 17, 19, 20, 21, 23, 25, 27, 29, 30, 33, 37, 40, 45, 50, 55, 59, 60}
+
+func timerSetup(w *World, choices []int) (sc *Script, s *session.Session, n int, logonAt time.Time) {
 	role := []string{"acceptor", "initiator"}[w.W.Draw(2)]
 	buf := []int{0, 1, 10}[w.W.Draw(3)]
-	n = hbChoices[w.W.Draw(len(hbChoices))]
+	n = choices[w.W.Draw(len(choices))]
 	w.Cfg("role", role)
 	w.Cfg("buf", buf)
 	w.Cfg("N", n)
@@ -49,7 +52,7 @@ func timerSetup(w *World) (sc *Script, s *session.Session, n int, logonAt time.T
 // c08: send times placed around the heartbeat deadline; gap invariants on the
 // simulated arrival times of outbound messages (zero transport latency).
 func c08(w *World) {
-	sc, s, n, logonAt := timerSetup(w)
+	sc, s, n, logonAt := timerSetup(w, hbChoicesAny)
 	if s == nil {
 		return
 	}
@@ -219,7 +222,7 @@ func stamp(t time.Time, w *World) string { return t.Sub(w.T0).String() }
 
 // c09: inbound arrival patterns around both deadlines; timeline oracle.
 func c09(w *World) {
-	sc, s, n, _ := timerSetup(w)
+	sc, s, n, _ := timerSetup(w, hbChoices)
 	if s == nil {
 		return
 	}
